@@ -358,6 +358,19 @@ impl MemoryStore {
     }
 }
 
+#[cfg(litep2p_verif)]
+impl MemoryStore {
+    /// Read-only dump of records, provider records and local provider keys (verification seam).
+    #[allow(clippy::type_complexity)]
+    pub fn verif_dump(&self) -> (Vec<Record>, Vec<(Key, Vec<ProviderRecord>)>, Vec<Key>) {
+        (
+            self.records.values().cloned().collect(),
+            self.provider_keys.iter().map(|(k, v)| (k.clone(), v.clone())).collect(),
+            self.local_providers.keys().cloned().collect(),
+        )
+    }
+}
+
 #[derive(Debug)]
 pub struct MemoryStoreConfig {
     /// Maximum number of records to store.
